@@ -12,6 +12,16 @@ CLAIMED = {
    text="Bounded symbolic check of the real argument plumbing: for every argv within the bounds (<=2 positional, <=3 forwarded arguments of <=4 bytes over an alphabet of shell/template/YAML-special bytes, with and without --) the solver discharges that each forwarded argument is quoted on its own and CLI_ARGS is the single blank-joined string, that NAME=value is split at the first '=' only, that non-assignments become calls in order, and that --init writes exactly where the positional argument says and never overwrites (decision table over 5 path shapes x file-system states through the real run()). Tests sample a handful of argvs; rare bytes and the --/--init combinations are what the solver enumerates.",
    note="mvdan/sh syntax.Quote is a stub (an injective per-argument function; the Quote/shell-parse inverse relation is trusted, spot-checked in the native replay with shell.Fields); pflag is a stub returning the symbolic argv; os.Stat/WriteFile/Getwd are a harness file-system model; the shellQuote template function is not yet encoded; argument length <= 4 bytes.",
    technique="harnesses over args.Get, args.Parse, splitVar and cmd/task run() (--init block); models replayed natively and through the built CLI binary"),
+ "C15": dict(
+   category="other",
+   text="Bounded symbolic check of the real name-resolution code (GetTask, FindMatchingTasks, Task.WildcardMatch, setupFuzzyModel): for every set of 2 (thorough: 3) task names of <=3 bytes over {a b : . * - ( +}, aliases and every request of <=4 bytes the solver discharges exact-name-first, first-matching-pattern-in-table-order with only '*' special and MATCH equal to the matched substrings, unique-alias, 203 on ambiguous alias, 200 with the spelling suggestion otherwise, and that the spelling model is built and trained on all names and aliases. Tests fix a few names; the solver covers all names including regexp metacharacters.",
+   note="regexp is modelled only for the wildcard shape ^lit(.*)lit$ with <=2 '*' (literal pieces via regexp.QuoteMeta); a task name that reaches regexp.Compile unquoted while holding a metacharacter is reported as a candidate that the native replay must confirm by finding a witness request; the fuzzy library is a stub that records its training words; ordered maps run from source.",
+   technique="harnesses over Executor.GetTask / Task.WildcardMatch / setupFuzzyModel with symbolic names, aliases and request; native replay"),
+ "C16": dict(
+   category="other",
+   text="Bounded symbolic check that no panic path is feasible in the hand-written layer between yaml.v3's node tree and the AST: all 18 UnmarshalYAML methods of taskfile/ast on arbitrary well-formed yaml.Node trees (symbolic kind, value, arity, position), NewGitNode/getScheme on symbolic URL paths, and the snippet arithmetic for every file length / position / padding. Every feasible runtime-panic path (index, nil dereference, failed assertion, regexp.MustCompile) is a violation; counterexamples are confirmed by running the real yaml.Unmarshal on the serialised tree.",
+   note="inputs are well-formed node trees, not byte strings: yaml.v3's scanner/parser/decoder is not encoded (node.Decode is a stub that fails or returns an arbitrary value of the target's static type with bounded structure, see engine/decode.go); giturls.Parse, net/url String/Query and the chroma highlighter are stubs; text/template parsing, OOM and wall-clock bounds are outside; node depth <= 1 level of children, <=1 (thorough 2) items per node, strings <= 3 bytes.",
+   technique="panic-reachability queries over taskfile/ast UnmarshalYAML methods, NewGitNode, NewSnippet/String; native replay through yaml.Unmarshal"),
 }
 
 NA = {p: NOT_YET for p in ["C%02d" % i for i in range(1, 21)]}
